@@ -10,15 +10,25 @@
 //!                    Creator and the PCZT's transaction effects.
 //! * `build-prove`    engine (iii), thorough only: full `build` with Orchard / Ironwood content and
 //!                    real proofs.
+//! * `build-deferred` engine (iv): `DeferredPcztBuilder::build_for_pczt` (anchors deferred to proving
+//!                    time; Orchard and Ironwood content), same oracle as `build-pczt`.
+//!
+//! Transparent inputs are P2PKH or P2SH (m-of-n multisig; also a non-multisig redeem script and
+//! coins whose script does not fit the spend information). For P2SH the scriptSig must be exactly
+//! `OP_0 <sig>*m <redeem script>` with the signatures valid, in public-key order, under the
+//! signature hash computed with scriptCode = redeem script; every signature hash is recomputed by
+//! the harness's own ZIP 143 / 243 / 244 code (`sighash_ref`).
 //!
 //! Modules: `types` (case data + reference model), `gen` (generator), `plan` (prediction from the
-//! reference), `world` (keys, notes, trees), `run` (drives the builder), `inspect_*` (result oracles).
+//! reference), `world` (keys, notes, trees), `run` (drives the builder), `inspect_*` (result oracles),
+//! `sighash_ref` (independent signature hashes).
 
 mod gen;
 mod inspect_built;
 mod inspect_pczt;
 mod plan;
 mod run;
+mod sighash_ref;
 mod types;
 mod world;
 
@@ -29,6 +39,14 @@ use crate::plan::*;
 use crate::run::{Outcome, RErr};
 use crate::types::*;
 
+static CTX: std::sync::OnceLock<std::sync::Arc<Ctx>> = std::sync::OnceLock::new();
+
+/// True iff `signature` is listed as a known finding for C14 (prints KNOWN-FINDING once, counts the
+/// hit); the oracle then continues with the remaining assertions of the case.
+pub fn known_hit(signature: &str) -> bool {
+    CTX.get().map(|c| c.known_hit(signature)).unwrap_or(false)
+}
+
 #[derive(Debug, Default)]
 struct Summary {
     ok: bool,
@@ -36,7 +54,9 @@ struct Summary {
     err: String,
 }
 
-fn explained(causes: &[Cause], e: &RErr) -> Result<bool, Fail> {
+fn explained(p: &Plan, w: &run::World, c: &Case, e: &RErr) -> Result<bool, Fail> {
+    let causes: Vec<Cause> = p.causes.iter().chain(p.may.iter()).cloned().collect();
+    let causes = &causes[..];
     Ok(match e {
         RErr::Insufficient(d) => {
             if let Some(Cause::Insufficient(want)) = causes.iter().find(|c| matches!(c, Cause::Insufficient(_))) {
@@ -58,6 +78,21 @@ fn explained(causes: &[Cause], e: &RErr) -> Result<bool, Fail> {
         RErr::Balance(_) => causes.contains(&Cause::BalanceRange),
         RErr::Target(_) => causes.contains(&Cause::Version),
         RErr::TMissingKey => causes.contains(&Cause::MissingTKey),
+        RErr::TUnsupportedScript => causes.contains(&Cause::UnsupportedScript),
+        RErr::DeferralUnsupported => causes.contains(&Cause::DeferralUnsupported),
+        RErr::UnknownP2sh(listed) => {
+            if causes.contains(&Cause::UnknownP2sh) {
+                // documented: the inputs "that pay to unknown P2SH redeem scripts"
+                let mut want: Vec<_> = p.accepted(T_IN).filter(|i| c.t_in[*i].spend == TSpend::P2shOther).map(|i| w.coins[i].0.clone()).collect();
+                let mut got = listed.clone();
+                want.sort();
+                got.sort();
+                vensure!(want == got, "unknown-p2sh-inputs-wrong-list", "UnknownP2shInputs lists {got:?}, the inputs with an unrecognized redeem script are {want:?}");
+                true
+            } else {
+                false
+            }
+        }
         RErr::SapMissingKey => causes.contains(&Cause::MissingSKey),
         RErr::SapZip212 => causes.contains(&Cause::PcztZip212),
         RErr::Other(_) => false,
@@ -85,6 +120,7 @@ fn check_case_full(c: &Case) -> Result<(Obs, Summary), Fail> {
             Engine::Build => "engine:build",
             Engine::Pczt => "engine:pczt",
             Engine::Prove => "engine:prove",
+            Engine::Deferred => "engine:deferred",
         })
         .label(p.br.label())
         .label(p.eff_ver.label())
@@ -105,6 +141,54 @@ fn check_case_full(c: &Case) -> Result<(Obs, Summary), Fail> {
             obs = obs.label(l);
         }
     }
+    // ---- transparent input kinds (all derived from the generated case through the plan)
+    {
+        let acc: Vec<&TIn> = p.accepted(T_IN).map(|i| &c.t_in[i]).collect();
+        let n_p2sh = acc.iter().filter(|x| x.spend.is_p2sh_multisig()).count();
+        let n_p2pkh = acc.iter().filter(|x| x.spend == TSpend::P2pkh).count();
+        let full = matches!(c.engine, Engine::Build | Engine::Prove);
+        let views: Vec<&P2shRef> = p.accepted(T_IN).filter_map(|i| p.p2sh[i].as_ref()).collect();
+        // the keys chosen in pubkey order appear in another order in the signing set
+        let order_differs = views.iter().any(|v| {
+            let pos_in_set: Vec<usize> = v.available.iter().filter_map(|j| p.sign_set.iter().position(|k| *k == v.keys[*j])).collect();
+            v.m >= 2 && v.available.len() >= v.m && pos_in_set.windows(2).any(|x| x[0] > x[1])
+        });
+        let redeem_len = |lo: usize, hi: usize| p.accepted(T_IN).any(|i| c.t_in[i].spend.is_p2sh_multisig() && p.redeem[i].as_ref().is_some_and(|r| (lo..=hi).contains(&r.len())));
+        obs = obs
+            .label_if(n_p2sh > 0, "has:p2sh-in")
+            .label_if(n_p2pkh > 0, "has:p2pkh-in")
+            .label_if(n_p2sh > 0 && n_p2pkh > 0, "mixed-p2pkh-p2sh")
+            .label_if(n_p2sh >= 2, "two-or-more-p2sh-in")
+            .label_if(n_p2sh > 0 && p.eff_ver == Ver::V3, "p2sh-in-v3")
+            .label_if(n_p2sh > 0 && p.eff_ver == Ver::V4, "p2sh-in-v4")
+            .label_if(n_p2sh > 0 && p.eff_ver == Ver::V5, "p2sh-in-v5")
+            .label_if(n_p2sh > 0 && p.eff_ver == Ver::V6, "p2sh-in-v6")
+            .label_if(n_p2sh > 0 && p.eff_ver == Ver::V4 && matches!(c.propose, Some((Ver::V4, _))) && p.br >= Br::Nu5, "p2sh-in-proposed-v4-after-nu5")
+            .label_if(full && p.p2sh_short_of_keys, "p2sh-missing-key")
+            .label_if(full && views.iter().any(|v| v.available.len() == v.m), "p2sh-exactly-m-keys")
+            .label_if(full && views.iter().any(|v| v.available.len() > v.m), "p2sh-more-than-m-keys")
+            .label_if(full && order_differs, "p2sh-signing-set-order-differs-from-pubkey-order")
+            .label_if(views.iter().any(|v| v.m == 1), "p2sh:m=1")
+            .label_if(views.iter().any(|v| v.m >= 2), "p2sh:m>=2")
+            .label_if(views.iter().any(|v| v.m == v.keys.len()), "p2sh:m=n")
+            .label_if(views.iter().any(|v| v.m < v.keys.len()), "p2sh:m<n")
+            .label_if(views.iter().any(|v| v.keys.len() > 4), "p2sh:n>4")
+            .label_if(redeem_len(0, 75), "p2sh-redeem-direct-push")
+            .label_if(redeem_len(76, 127), "p2sh-redeem-pushdata1-below-128")
+            .label_if(redeem_len(128, 255), "p2sh-redeem-pushdata1-128-to-255")
+            .label_if(redeem_len(256, 10_000), "p2sh-redeem-pushdata2")
+            .label_if(acc.iter().any(|x| x.spend.is_p2sh_multisig() && x.via_info), "p2sh-via-input-info")
+            .label_if(c.t_in.iter().any(|x| x.spend != TSpend::P2pkh && x.wrong_script), "p2sh-wrong-coin-script")
+            .label_if(c.t_in.iter().any(|x| x.spend == TSpend::P2pkh && x.wrong_script), "p2pkh-wrong-coin-script")
+            .label_if(acc.iter().any(|x| x.spend == TSpend::P2shOther), "p2sh-non-multisig-redeem-script");
+        if c.engine == Engine::Deferred {
+            let empty_required = (c.orc_pad.required && p.n_acc(O_IN) + p.n_acc(O_OUT) == 0) || (c.iro_pad.required && p.n_acc(I_IN) + p.n_acc(I_OUT) == 0);
+            obs = obs
+                .label_if(!p.deferral_ok, "deferred:height-without-v6")
+                .label_if(p.deferral_ok && empty_required, "deferred:required-bundle-on-empty-pool")
+                .label_if(p.deferral_ok && (c.orc_pad.required || c.iro_pad.required) && !empty_required, "deferred:required-bundle-on-used-pool");
+        }
+    }
     let one_off = p.solved && p.diff().is_some_and(|d| d.abs() == 1);
     obs = obs
         .label_if(p.diff() == Some(0), "delta:0")
@@ -121,6 +205,9 @@ fn check_case_full(c: &Case) -> Result<(Obs, Summary), Fail> {
                 Cause::Version => "success-with-invalid-version",
                 Cause::FeeOverflow => "success-with-invalid-fee",
                 Cause::MissingTKey | Cause::MissingSKey => "success-without-key",
+                Cause::UnknownP2sh => "success-with-unpriced-p2sh-input",
+                Cause::UnsupportedScript => "success-with-unsupported-redeem-script",
+                Cause::DeferralUnsupported => "deferred-builder-accepted-pre-v6-height",
                 Cause::PcztZip212 => "success-pczt-without-zip212",
                 Cause::PreOverwinter => unreachable!("filtered"),
             };
@@ -137,11 +224,15 @@ fn check_case_full(c: &Case) -> Result<(Obs, Summary), Fail> {
         }
         Outcome::Pczt(r) => {
             success_guard("build_for_pczt")?;
-            Some(inspect_pczt::check_pczt(c, &p, &w, *r)?)
+            Some(inspect_pczt::check_pczt(c, &p, &w, *r, None)?)
+        }
+        Outcome::DeferredPczt(r, announced) => {
+            success_guard("DeferredPcztBuilder::build_for_pczt")?;
+            Some(inspect_pczt::check_pczt(c, &p, &w, *r, Some(announced))?)
         }
         Outcome::Err(e) => {
             summary.err = format!("{e:?}");
-            if !explained(&p.causes, &e)? {
+            if !explained(&p, &w, c, &e)? {
                 if must_fail.is_empty() {
                     vfail!("failure-of-balanced-valid-request", "{e:?} although inputs {} = outputs {} + fee {:?}, version {:?} valid under {:?} and no documented precondition is violated", p.sum_in, p.sum_out, p.fee, p.eff_ver, p.br);
                 }
@@ -154,6 +245,9 @@ fn check_case_full(c: &Case) -> Result<(Obs, Summary), Fail> {
                 RErr::Balance(_) => "err:balance-range",
                 RErr::Target(_) => "err:target-incompatible",
                 RErr::TMissingKey => "err:missing-transparent-key",
+                RErr::TUnsupportedScript => "err:unsupported-script",
+                RErr::UnknownP2sh(_) => "err:unknown-p2sh-input",
+                RErr::DeferralUnsupported => "err:anchor-deferral-unsupported",
                 RErr::SapMissingKey => "err:missing-sapling-key",
                 RErr::SapZip212 => "err:pczt-requires-zip212",
                 RErr::Other(_) => "err:other",
@@ -183,7 +277,16 @@ fn check_case_full(c: &Case) -> Result<(Obs, Summary), Fail> {
                 Engine::Build => "ok:build",
                 Engine::Pczt => "ok:pczt",
                 Engine::Prove => "ok:prove",
+                Engine::Deferred => "ok:deferred",
             })
+            .label_if(s.p2sh_inputs > 0, "ok:p2sh-in")
+            .label_if(s.p2sh_inputs > 0 && p.eff_ver == Ver::V3, "ok:p2sh-in-v3")
+            .label_if(s.p2sh_inputs > 0 && p.eff_ver == Ver::V4, "ok:p2sh-in-v4")
+            .label_if(s.p2sh_inputs > 0 && p.eff_ver == Ver::V5, "ok:p2sh-in-v5")
+            .label_if(s.p2sh_inputs > 0 && p.eff_ver == Ver::V6, "ok:p2sh-in-v6")
+            .label_if(s.p2sh_sigs_verified >= 2, "ok:two-or-more-p2sh-signatures-verified")
+            .label_if(s.known_deferred_required > 0, "ok:known-finding-deferred-required-bundle")
+            .label_if(s.known_pushdata1_length > 0, "ok:known-finding-p2sh-pushdata1-length")
             .label_if(pools >= 2, "ok:two-or-more-pools")
             .label_if(pools >= 3, "ok:three-or-more-pools")
             .label_if(s.sigs_verified >= 2, "ok:two-or-more-signatures-verified")
@@ -198,6 +301,9 @@ fn check_case_full(c: &Case) -> Result<(Obs, Summary), Fail> {
             .label_if(p.shape.i_actions > 0 && c.iro_pad != (Pad { required: false, min: None }), "ok:ironwood-explicit-padding")
             .label_if(p.propose_ok == Some(true), "ok:proposed-version")
             .count("signatures-verified", s.sigs_verified as u64)
+            .count("p2sh-inputs-checked", s.p2sh_inputs as u64)
+            .count("p2sh-signatures-verified", s.p2sh_sigs_verified as u64)
+            .count("signature-hashes-equal-to-reference", s.ref_sighashes as u64)
             .count("outputs-decrypted", s.decrypted as u64)
             .count("ovk-recoveries", s.ovk_recovered as u64)
             .count("padding-items-observed", s.padding_observed as u64);
@@ -221,6 +327,7 @@ fn check_case(c: &Case) -> CaseResult {
 enum Expect {
     Ok { fee: u128 },
     Err(&'static str),
+    ErrStarts(&'static str),
     Any,
 }
 
@@ -254,7 +361,8 @@ fn base() -> Case {
 
 fn regress_cases() -> Vec<(&'static str, Case, Expect)> {
     let b = base();
-    let tin = |key: u8, value: u64| TIn { key, value, wrong_script: false, via_info: false };
+    let tin = |key: u8, value: u64| TIn { key, value, wrong_script: false, via_info: false, spend: TSpend::P2pkh };
+    let msig = |m: u8, keys: &[u8], present: u16, value: u64| TIn { key: 0, value, wrong_script: false, via_info: false, spend: TSpend::P2sh { m, keys: keys.to_vec(), present } };
     let tout = |value: u64| TOut { kind: TKind::P2pkh([0; 20]), value };
     let sin = |value: u64, r: u8| SIn { key: 0, value, rseed: [r; 32] };
     let sh = |value: u64| ShOut { key: 1, internal: false, div: 0, value, memo: Memo::Empty, ovk: Some([9; 32]), change: false, wrong_owner: false };
@@ -359,6 +467,106 @@ fn regress_cases() -> Vec<(&'static str, Case, Expect)> {
         Case { s_in: vec![sin(100_000, 4)], s_out: vec![ShOut { memo: Memo::Full(42), ..sh(90_000) }], ..b.clone() },
         Expect::Ok { fee: 10_000 },
     ));
+    // ---- P2SH multisig inputs. Priced size (documented estimate): 36 + CompactSize(L) + L + 4 with
+    // L = 1 (OP_0) + m * (1 + 73) + push(redeem script); redeem script = 3 + 34 n bytes.
+    // 2-of-3: redeem 105 bytes (OP_PUSHDATA1: 107), L = 256 -> 3-byte CompactSize -> 299 bytes
+    // -> ceil(299 / 150) = 2 logical actions; two of them: ceil(598 / 150) = 4 -> fee 20 000.
+    v.push((
+        "two 2-of-3 p2sh inputs, v6",
+        Case { t_in: vec![msig(2, &[7, 8, 9], 0b111, 30_000), msig(2, &[9, 3, 12], 0b110, 30_000)], t_out: vec![tout(40_000)], ..b.clone() },
+        Expect::Ok { fee: 20_000 },
+    ));
+    // 1-of-1: redeem 37 bytes, L = 1 + 74 + 38 = 113 -> 154 bytes; plus a P2PKH input priced at 150:
+    // ceil(304 / 150) = 3 -> fee 15 000 (two P2PKH inputs would pay 10 000). Height 45 = Heartwood: v4.
+    v.push((
+        "1-of-1 p2sh and p2pkh inputs, v4",
+        Case { height: 45, t_in: vec![msig(1, &[11], 0b1, 30_000), tin(1, 25_000)], t_out: vec![tout(40_000)], ..b.clone() },
+        Expect::Ok { fee: 15_000 },
+    ));
+    v.push((
+        "2-of-2 p2sh input, v3",
+        Case { height: 15, sap_anchor: Anc::None, t_in: vec![msig(2, &[4, 2], 0b11, 50_000)], t_out: vec![tout(40_000)], ..b.clone() },
+        Expect::Ok { fee: 10_000 },
+    ));
+    v.push((
+        "2-of-3 p2sh input, v5, signing set in reverse order",
+        Case { height: 40_001, sap_anchor: Anc::None, key_perm: 1, t_in: vec![msig(2, &[3, 14, 8], 0b111, 50_000)], t_out: vec![tout(40_000)], ..b.clone() },
+        Expect::Ok { fee: 10_000 },
+    ));
+    v.push((
+        "2-of-3 p2sh input, explicit v4 after NU5, with sapling output",
+        // 2 transparent logical actions + max(0 spends, 2 padded outputs)
+        Case { height: 40_001, propose: Some((Ver::V4, false)), t_in: vec![msig(2, &[3, 14, 8], 0b101, 70_000)], s_out: vec![sh(50_000)], ..b.clone() },
+        Expect::Ok { fee: 20_000 },
+    ));
+    // 3-of-9: redeem 309 bytes (OP_PUSHDATA2: 312), L = 1 + 222 + 312 = 535 -> 578 bytes -> 4 actions
+    v.push((
+        "3-of-9 p2sh input (OP_PUSHDATA2 redeem script)",
+        Case { t_in: vec![msig(3, &[0, 1, 2, 3, 4, 5, 7, 8, 9], 0b1_0101_0000, 70_000)], t_out: vec![tout(50_000)], ..b.clone() },
+        Expect::Ok { fee: 20_000 },
+    ));
+    // 2-of-4: redeem 139 bytes (OP_PUSHDATA1 with a length byte >= 0x80, see the findings):
+    // L = 1 + 148 + 141 = 290 -> 333 bytes -> 3 logical actions
+    v.push((
+        "2-of-4 p2sh input (139-byte redeem script)",
+        Case { t_in: vec![msig(2, &[7, 8, 9, 10], 0b1111, 55_000)], t_out: vec![tout(40_000)], ..b.clone() },
+        Expect::Any,
+    ));
+    v.push((
+        "2-of-3 p2sh input with one key",
+        Case { t_in: vec![msig(2, &[7, 8, 9], 0b010, 50_000)], t_out: vec![tout(40_000)], ..b.clone() },
+        Expect::Err("TMissingKey"),
+    ));
+    v.push((
+        "p2sh coin that does not commit to the redeem script",
+        Case { t_in: vec![TIn { wrong_script: true, ..msig(2, &[7, 8, 9], 0b111, 50_000) }, TIn { key: 1, wrong_script: true, ..msig(1, &[7], 0b1, 50_000) }, tin(0, 50_000)], t_out: vec![tout(40_000)], ..b.clone() },
+        Expect::Ok { fee: 10_000 },
+    ));
+    v.push((
+        "non-multisig redeem script, ZIP 317",
+        Case { t_in: vec![TIn { spend: TSpend::P2shOther, ..tin(2, 50_000) }], t_out: vec![tout(40_000)], ..b.clone() },
+        Expect::ErrStarts("UnknownP2sh("),
+    ));
+    v.push((
+        "non-multisig redeem script, fixed fee, full build",
+        Case { rule: Rule::Fixed(10_000), t_in: vec![TIn { spend: TSpend::P2shOther, ..tin(2, 50_000) }], t_out: vec![tout(40_000)], ..b.clone() },
+        Expect::Err("TUnsupportedScript"),
+    ));
+    v.push((
+        "p2sh and p2pkh inputs, pczt",
+        Case { engine: Engine::Pczt, sap_anchor: Anc::None, t_in: vec![msig(2, &[7, 8, 9], 0, 30_000), tin(3, 30_000)], t_out: vec![tout(45_000)], ..b.clone() },
+        Expect::Ok { fee: 15_000 },
+    ));
+    // ---- DeferredPcztBuilder
+    let deferred = Case { engine: Engine::Deferred, sap_anchor: Anc::None, ..b.clone() };
+    v.push((
+        "deferred: ironwood spend to ironwood output",
+        Case { i_in: vec![OIn { wrong_version: false, ..oin(100_000, 5) }], i_out: vec![sh(90_000)], ..deferred.clone() },
+        Expect::Ok { fee: 10_000 },
+    ));
+    v.push((
+        "deferred: orchard spend to unpadded ironwood output",
+        Case { iro_pad: Pad { required: false, min: Some(1) }, o_in: vec![oin(100_000, 1)], i_out: vec![sh(85_000)], ..deferred.clone() },
+        Expect::Ok { fee: 15_000 },
+    ));
+    v.push(("deferred: below NU6.3", Case { height: 40_039, i_out: vec![sh(90_000)], ..deferred.clone() }, Expect::Err("DeferralUnsupported")));
+    // required all-dummy Orchard bundle next to Ironwood content (see the findings): 2 dummy Orchard
+    // actions + 2 Ironwood actions are emitted and paid for
+    v.push((
+        "deferred: required orchard bundle without orchard content",
+        Case { orc_pad: Pad { required: true, min: None }, i_in: vec![oin(100_000, 5)], i_out: vec![sh(80_000)], ..deferred.clone() },
+        Expect::Ok { fee: 20_000 },
+    ));
+    v.push((
+        "deferred: required unpadded ironwood bundle without ironwood content",
+        Case {
+            iro_pad: Pad { required: true, min: Some(1) },
+            o_in: vec![oin(100_000, 5)],
+            o_out: vec![ShOut { key: 0, internal: true, change: true, ..sh(85_000) }],
+            ..deferred.clone()
+        },
+        Expect::Ok { fee: 15_000 },
+    ));
     // required all-dummy bundles in versions that cannot carry them (see the findings)
     v.push((
         "required ironwood bundle, explicit v5",
@@ -402,26 +610,37 @@ fn check_regress(i: u64) -> CaseResult {
             vensure_eq!(s.fee, fee, "regress-expectation", "{name}: fee");
         }
         Expect::Err(e) => vensure!(!s.ok && s.err == e, "regress-expectation", "{name}: expected {e}, got ok={} {}", s.ok, s.err),
+        Expect::ErrStarts(e) => vensure!(!s.ok && s.err.starts_with(e), "regress-expectation", "{name}: expected {e}.., got ok={} {}", s.ok, s.err),
     }
     Ok(Obs { nontrivial: true, key: vcore::hash64(name.as_bytes()), ..obs })
 }
 
 fn main() {
     let ctx = Ctx::from_args("C14", "exploration");
+    let _ = CTX.set(ctx.clone());
     ctx.set_rule(
         "A case is a whole builder request: LocalNetwork layout + target height (every upgrade boundary -1/0/+1, ZIP 212 \
          grace-period ends), engine (full build with mock Sapling provers / build_for_pczt / thorough: real Orchard proofs), \
          optional propose_version (valid and invalid, before or after the content), per-pool anchors (real/none/wrong), \
          Orchard and Ironwood BundlePadding (DEFAULT, UNPADDED, explicit minimum, bundle_required), fee rule (ZIP 317 \
-         standard, non-standard parameters, fixed), 0..n transparent P2PKH inputs (generated secp256k1 keys), \
+         standard, non-standard parameters, fixed), 0..n transparent inputs: P2PKH or P2SH m-of-n multisig over 16 \
+         generated secp256k1 keys (1 <= m <= n <= 4 mostly, up to 15 keys; keys in arbitrary order; all / exactly m / \
+         more than m / m - 1 / none of the keys in the signing set, whose insertion order is varied), a small share of \
+         non-multisig redeem scripts and of coins whose script does not fit the spend information; \
          P2PKH/P2SH/null-data outputs, Sapling/Orchard/Ironwood notes placed in incremental Merkle trees, shielded outputs \
          (recipients from generated keys, empty/short/512-byte memos, with and without ovk). One value is then solved with \
-         the reference fee so that inputs - outputs - fee is 0, -1, +1 or far off. Non-trivial = successful build with \
+         the reference fee so that inputs - outputs - fee is 0, -1, +1 or far off. A fourth engine drives \
+         DeferredPcztBuilder (Orchard / Ironwood content only, paddings incl. bundle_required on an empty pool, heights \
+         with and without the v6 format). Non-trivial = successful build with \
          content in >= 2 pools, or a request exactly 1 zatoshi from balance; distinct = hash of the whole case.",
     );
     ctx.assume("secp256k1 ECDSA verification, the note-encryption primitives (try_note_decryption & co.), note commitments/nullifiers and the repo's signature_hash are trusted as primitives");
     ctx.assume("sapling-crypto / orchard pad bundles as their BundleType rustdoc says; the reference padding model is written from that text");
     ctx.assume("P2PKH inputs are priced with the ZIP 317 standard size of 150 bytes (documented on InputView for TransparentInputInfo)");
+    ctx.assume("P2SH multisig inputs are priced with the documented estimate of their serialized size (p2sh_input_serialized_len: OP_0, m signatures of at most 72 DER bytes + 1 hash-type byte, the pushed redeem script); the reference formula is written from that text");
+    ctx.assume("which m of more than m available multisig keys sign is not documented: any m valid signatures in public-key order (the OP_CHECKMULTISIG rule) by keys of the signing set are accepted");
+    ctx.assume("a P2SH input whose redeem script is not multisig: ZIP 317 rules must refuse to price it (UnknownP2shInputs listing it), a full build under a fixed fee must fail with UnsupportedScript, build_for_pczt under a fixed fee may succeed (then carrying the requested redeem script) or fail with UnsupportedScript");
+    ctx.assume("the v5/v6 reference signature hash recomputes the transparent part (ZIP 244 S.2) and takes the header / Sapling / Orchard / Ironwood digests from the transaction's own txid digests; the v3/v4 reference (ZIP 143/243) is assembled completely by the harness");
     ctx.assume("a target height below Overwinter is unsupported for full builds (v4_signature_hash documents the panic); the panic is accepted there as the signalled failure");
     ctx.assume("build_for_pczt with a Sapling anchor requires ZIP 212 to be enforced (documented sapling::builder::Error::PcztRequiresZip212), whether or not Sapling content is present");
     ctx.assume("when several documented failure reasons hold at once the builder may report any of them (their precedence is not documented)");
@@ -438,8 +657,9 @@ fn main() {
         format!("{n}: {c:?} expect {e:?}")
     });
 
-    ctx.run_prop_with("build-sapling", move || gen::arb_case(max_n, Engine::Build), tier.pick(3_000, 150_000), 600, check_case);
-    ctx.run_prop_with("build-pczt", move || gen::arb_case(max_n, Engine::Pczt), tier.pick(3_000, 150_000), 600, check_case);
+    ctx.run_prop_with("build-sapling", move || gen::arb_case(max_n, Engine::Build), tier.pick(20_000, 500_000), 600, check_case);
+    ctx.run_prop_with("build-pczt", move || gen::arb_case(max_n, Engine::Pczt), tier.pick(9_000, 250_000), 600, check_case);
+    ctx.run_prop_with("build-deferred", move || gen::arb_deferred_case(max_n), tier.pick(6_000, 150_000), 600, check_case);
     // generator health (fractions: the quotas differ between tiers)
     for (sub, label, frac) in [
         ("build-sapling", "ok", 0.25),
@@ -473,6 +693,49 @@ fn main() {
         ("build-pczt", "err:target-incompatible", 0.02),
         ("build-pczt", "err:pczt-requires-zip212", 0.04),
         ("build-pczt", "propose-rejected", 0.04),
+    ] {
+        ctx.require_label_fraction(sub, label, frac);
+    }
+    // transparent input kinds and deferred-builder configurations: labels that are functions of the
+    // generated case only
+    for (sub, label, frac) in [
+        ("build-sapling", "has:p2sh-in", 0.25),
+        ("build-sapling", "has:p2pkh-in", 0.30),
+        ("build-sapling", "mixed-p2pkh-p2sh", 0.10),
+        ("build-sapling", "two-or-more-p2sh-in", 0.05),
+        ("build-sapling", "p2sh-in-v3", 0.004),
+        ("build-sapling", "p2sh-in-v4", 0.05),
+        ("build-sapling", "p2sh-in-v5", 0.07),
+        ("build-sapling", "p2sh-in-v6", 0.08),
+        ("build-sapling", "p2sh-in-proposed-v4-after-nu5", 0.02),
+        ("build-sapling", "p2sh-missing-key", 0.05),
+        ("build-sapling", "p2sh-exactly-m-keys", 0.10),
+        ("build-sapling", "p2sh-more-than-m-keys", 0.10),
+        ("build-sapling", "p2sh-signing-set-order-differs-from-pubkey-order", 0.09),
+        ("build-sapling", "p2sh:m=1", 0.10),
+        ("build-sapling", "p2sh:m>=2", 0.14),
+        ("build-sapling", "p2sh:m=n", 0.10),
+        ("build-sapling", "p2sh:m<n", 0.14),
+        ("build-sapling", "p2sh:n>4", 0.05),
+        ("build-sapling", "p2sh-redeem-direct-push", 0.09),
+        ("build-sapling", "p2sh-redeem-pushdata1-below-128", 0.08),
+        ("build-sapling", "p2sh-redeem-pushdata1-128-to-255", 0.06),
+        ("build-sapling", "p2sh-redeem-pushdata2", 0.025),
+        ("build-sapling", "p2sh-via-input-info", 0.09),
+        ("build-sapling", "p2sh-wrong-coin-script", 0.01),
+        ("build-sapling", "p2sh-non-multisig-redeem-script", 0.01),
+        ("build-pczt", "has:p2sh-in", 0.20),
+        ("build-pczt", "mixed-p2pkh-p2sh", 0.10),
+        ("build-pczt", "p2sh-in-v4", 0.04),
+        ("build-pczt", "p2sh-in-v5", 0.07),
+        ("build-pczt", "p2sh-in-v6", 0.08),
+        ("build-pczt", "p2sh-wrong-coin-script", 0.01),
+        ("build-pczt", "p2sh-non-multisig-redeem-script", 0.01),
+        ("build-deferred", "deferred:required-bundle-on-empty-pool", 0.06),
+        ("build-deferred", "deferred:required-bundle-on-used-pool", 0.15),
+        ("build-deferred", "deferred:height-without-v6", 0.07),
+        ("build-deferred", "one-zat-from-balance", 0.10),
+        ("build-deferred", "delta:0", 0.25),
     ] {
         ctx.require_label_fraction(sub, label, frac);
     }
